@@ -1,10 +1,22 @@
 import FxVerif.Model.C12
 import FxVerif.Model.C12Sig
+import FxVerif.Model.C12Env
+import FxVerif.Model.C12Genesis
 import FxVerif.Model.Util
 /-! line-protocol driver for the C12 model: `lake env lean --run Driver/C12.lean < ops.txt`
 
 ops (numbers decimal, addresses / byte strings hex, `-` = empty):
-* `chain <c> <eth|tron> <gravityId as 32 bytes hex>`
+* `chain <c> <eth|tron> <gravityId TEXT as hex, 1..32 bytes>` — the model packs it with the regenerated `StrToByte32`
+  (`gidWord`); `err:gid` when `Params.ValidateBasic` (regenerated checks) would not admit it
+* `gid <text hex | ->` — `StrToByte32` + the gravity-id checks of `Params.ValidateBasic`: `<32 bytes hex | err> <valid|invalid>`
+* `timeout <fxHeight> <lastFxHeight> <extHeight> <avgBlock> <avgExt> <timeoutParam>` — `CalExternalTimeoutHeight` (regenerated
+  statement list, wrapping uint64 arithmetic): `<n>` or `panic`
+* `build <bcall|batch> <stored counter | -> <fx> <last> <ext> <avgBlock> <avgExt> <timeoutParam> <eventNonce>` — the numeric
+  fields `BuildOutgoingBridgeCall` / `BuildOutgoingTxBatch` assign (field sources regenerated): `<nonce> <timeout> <eventNonce|->`
+  or `err:timeout` (the `<= 0` guard)
+* `genesis <c>` — the confirmations stored after ExportGenesis → wipe → InitGenesis (`roundTripConfirms`: regenerated export lists
+  and import comparison): `oset=<n> batch=<n> bcall=<n> of=<all stored before>` (the state itself is not changed)
+* `curoset <latest nonce> <p1,p2,…>` — `GetCurrentOracleSet`: `<nonce> <normalised powers, ascending>`
 * `oset <c> <nonce> <addr:power,...>` / `batch <c> <tokenText> <tokenHex> <nonce> <timeout> <feeReceive> <amount:dest:fee,...>` /
   `bcall <c> <nonce> <sender> <refund> <to> <data> <memo> <timeout> <eventNonce> <contract:amount,...>` — store the object;
   answer `<checkpoint from the Go/tron layout> <eq|ne: Go pre-image = Solidity pre-image>`
@@ -17,7 +29,7 @@ ops (numbers decimal, addresses / byte strings hex, `-` = empty):
 * `remove <c> <site> <oset|batch|bcall> <key…>` — a pruning site of the source (`deleteSites`, regenerated) removes the
   object; answer `ok` + the confirms left under the key + `live=<0|1>` + `n=<all confirms>`
 -/
-open FxVerif FxVerif.Util FxVerif.Model.C12 FxVerif.Gen.C12Sig
+open FxVerif FxVerif.Util FxVerif.Model.C12 FxVerif.Gen.C12Sig FxVerif.Gen.C12Env
 
 structure Chain where
   tron : Bool
@@ -31,6 +43,9 @@ def splitList (s : String) : List (List String) :=
   if s == "-" then [] else (s.splitOn ",").map (·.splitOn ":")
 
 def hexNat (s : String) : Option Nat := (unhex s).map fromBE
+
+/-- hex text, `-` = empty -/
+def unhexD (s : String) : Option (List Nat) := if s == "-" then some [] else unhex s
 
 def parseMembers (s : String) : Option (List Member) :=
   (splitList s).mapM fun
@@ -124,9 +139,59 @@ def stepLine (s : St) (line : String) : St × String :=
   | "reset" :: _ => ({}, "ok")
   | ["verifysig", file, d, sig, signer, mh, rc] => (s, doVerifySig file d sig signer mh rc)
   | ["chain", c, style, gid] =>
-    match hexNat gid with
-    | some g => ({ s with chains := upsert c { tron := style == "tron", gid := g } s.chains }, "ok")
+    match unhexD gid with
+    | some txt =>
+      match gidParamValid txt, gidWord txt with
+      | true, some g => ({ s with chains := upsert c { tron := style == "tron", gid := g } s.chains }, "ok")
+      | _, _ => (s, "err:gid")
     | none => (s, "bad-op")
+  | ["gid", gid] =>
+    match unhexD gid with
+    | some txt =>
+      (s, (match strToByte32 txt with | some bs => hex bs | none => "err") ++ " " ++ (if gidParamValid txt then "valid" else "invalid"))
+    | none => (s, "bad-op")
+  | ["timeout", fx, last, ext, ab, ae, tp] =>
+    match fx.toNat?, last.toNat?, ext.toNat?, ab.toNat?, ae.toNat?, tp.toNat? with
+    | some a, some b, some c, some d, some e, some f =>
+      (s, match calTimeout ⟨a, b, c, d, e, f⟩ with | some v => toString v | none => "panic")
+    | _, _, _, _, _, _ => (s, "bad-op")
+  | ["build", kind, cnt, fx, last, ext, ab, ae, tp, evn] =>
+    match fx.toNat?, last.toNat?, ext.toNat?, ab.toNat?, ae.toNat?, tp.toNat?, evn.toNat? with
+    | some a, some b, some c, some d, some e, some f, some en =>
+      let stored : Option Nat := if cnt == "-" then none else cnt.toNat?
+      if cnt != "-" && stored.isNone then (s, "bad-op") else
+      let env : BuildEnv := ⟨fun _ => stored, fun _ => ⟨a, b, c, d, e, f⟩, fun _ => en⟩
+      let (fn, fNonce, fTimeout, fEvn) :=
+        if kind == "bcall" then ("BuildOutgoingBridgeCall", "Nonce", "Timeout", "EventNonce")
+        else ("BuildOutgoingTxBatch", "BatchNonce", "BatchTimeout", "")
+      if kind != "bcall" && kind != "batch" then (s, "bad-op") else
+      let B := builderOf fn
+      let ev := fun (f : String) => evalSrc env (fieldSrc B f)
+      match ev fTimeout, ev fNonce with
+      | some t, some n =>
+        -- the guard of the builder on its timeout variable (regenerated text `<var> <= 0`)
+        let guarded := B.guards.any (fun g => (B.fields.lookup fTimeout).any (fun v => g == v ++ " <= 0"))
+        if guarded && t == 0 then (s, "err:timeout")
+        else (s, toString n ++ " " ++ toString t ++ " " ++ (if fEvn == "" then "-" else match ev fEvn with | some x => toString x | none => "?"))
+      | _, _ => (s, "modelgap")
+    | _, _, _, _, _, _, _ => (s, "bad-op")
+  | ["genesis", c] =>
+    withChain s c fun ch =>
+      let rt := roundTripConfirms ch.st
+      let n := fun (k : String) => (rt.filter (·.key.kind == k)).length
+      (ch, "oset=" ++ toString (n "oracleSet") ++ " batch=" ++ toString (n "batch") ++ " bcall=" ++ toString (n "bridgeCall") ++
+        " of=" ++ toString ch.st.confirms.length)
+  | ["curoset", latest, ps] =>
+    match latest.toNat?, (if ps == "-" then some [] else (ps.splitOn ",").mapM (·.toNat?)) with
+    | some l, some ps =>
+      let live := ps.filter (· > 0)
+      let total := (live.foldl (· + ·) 0) % u64
+      match live.mapM (fun p => normPower p total) with
+      | some vs =>
+        let nonce := if oracleSetLocals.lookup "oracleSetNonce" == some "k.GetLatestOracleSetNonce(ctx) + 1" then (l + 1) % u64 else 0
+        (s, toString nonce ++ " " ++ (if vs.isEmpty then "-" else ",".intercalate ((vs.mergeSort (· ≤ ·)).map toString)))
+      | none => (s, "panic")
+    | _, _ => (s, "bad-op")
   | ["oset", c, nonce, ms] =>
     match nonce.toNat?, parseMembers ms with
     | some n, some ms => withChain s c fun ch => store ch "oracleSet" (.oracleSet n) (OracleSet.toObj ⟨n, ms⟩)
